@@ -5,11 +5,15 @@
 # 3. applies it to /repo, runs the given quick checks, reverts
 set -u
 name=$1; wt=$2; prop=$3; shift 3
+# the worktree must exist and must not be /verif or /repo: the steps below run `git checkout` and
+# `git clean` in it (a failed `cd` once ran them in /verif and wiped uncommitted work)
+if [ ! -f "$wt/_out/patch.diff" ] || [ "$(cd "$wt" 2>/dev/null && git rev-parse --show-toplevel)" != "$wt" ]; then echo "no such seed worktree: $wt"; exit 2; fi
+case "$wt" in /verif*|/repo*) echo "refusing to work in $wt"; exit 2;; esac
 out=/verif/seeded/$name; mkdir -p $out
 cp $wt/_out/patch.diff $out/patch.diff
 rm -rf $out/demo; cp -r $wt/_out/demo $out/demo
 [ -f $wt/_out/notes.md ] && cp $wt/_out/notes.md $out/notes.md
-cd $wt
+cd $wt || exit 2
 git checkout -q -- . 2>/dev/null; git clean -fdq -e _out -e target 2>/dev/null
 # bring the worktree to /repo's HEAD so that the patch is validated against the current tree
 git checkout -q --detach $(git -C /repo rev-parse HEAD) 2>/dev/null
